@@ -227,7 +227,13 @@ def _gaussian(spec, ctx, g, rng):
     t = mv.random_table_spec(rng, 'quick', d=3, n=120, marg_pool=['normal', 'gamma', 'beta', 'uniform', 'constant'])
     t['names'] = 'str'
     df, _ = mv.make_table(t)
-    dist = {df.columns[0]: cu.BetaUnivariate, 'unused': cu.GammaUnivariate}
+    class Refuses:
+        def __init__(self, *a, **k):
+            pass
+
+        def fit(self, X):
+            raise ValueError('cannot be fitted')
+    dist = {df.columns[0]: cu.BetaUnivariate, df.columns[1]: Refuses, 'unused': cu.GammaUnivariate}
     models = {}
     for cname, arg, d_arg in (('DataFrame', df.copy(), cu.GaussianUnivariate), ('DataFrame+dict', df.copy(), dist),
                               ('ndarray-readonly', variants(df.to_numpy(), rng)['ndarray-readonly'], cu.GaussianUnivariate),
